@@ -367,6 +367,161 @@ def call_order(ctx, strings):
                                     repr(got), 'the value %r every other entry point returns for this text' % (ref,))
     ctx.oracle_cases('call-order', n, readers=len(readers), texts=len(sample))
 
+def field(text, w):
+    return text.rjust(w) if len(text) <= w else None
+
+
+def dictionaries(ctx, rounds, n_probes, n_files):
+    """The module-level reader DICTIONARIES (fortran_read_function: what t2incon and every parser given it
+    read numbers with) and Fortran dictionaries a caller builds with read_function_dict(fortran_read_float,
+    fortran_read_int) keep Fortran's meaning whatever else happens in the process: other dictionaries being
+    built with the public helper (with no, strict, or custom readers), those dictionaries being used, edited
+    or emptied by their owner, parsers and t2incon objects being created with other readers - in shuffled
+    order, every clause evaluated again after every few steps; directly, and through t2incon() on
+    Fortran-written INCON files.  Expectations are independent of the code under test (strtod of the
+    canonical E form, the integer, None for blank, nan / None for asterisks)."""
+    import fixed_format_file as fff
+    import tempfile, shutil
+    rng = random.Random(ctx.seed + 61)
+    try:
+        from t2incons import t2incon
+    except Exception as e:       # the readers are still checked directly
+        t2incon = None
+        ctx.log('C16 dictionaries: t2incons not importable (%r): INCON step skipped' % (e,))
+
+    def canon(v):
+        if isinstance(v, float): return ('f', bits(v)) if v == v else ('nan',)
+        return ('v', repr(v))
+    def shown(c): return repr(struct.unpack('<d', c[1])[0]) if c[0] == 'f' else 'nan' if c[0] == 'nan' else c[1]
+    fprobes, iprobes = [], []
+    while len(fprobes) < n_probes:
+        p = styled_real(rng)
+        neg, digs, e = p[0], p[1], p[2]
+        fprobes.append((py_render_real(*p), canon(float(('-' if neg else '') + '0.' + digs + 'e' + str(e)))))
+    fprobes += [(' 0.1013000000000D+06', canon(0.1013e6)), ('  0.2500000000000-101', canon(0.25e-101)), ('-.1234567890123+105', canon(-.1234567890123e105)),
+                (' 1.5 E 03', canon(1.5e3)), ('1.+100', canon(1e100)), ('     ', canon(None)), ('', canon(None)), (' \n', canon(None)),
+                ('********', ('nan',)), (' ***', ('nan',))]
+    for _ in range(max(4, n_probes // 3)):
+        p = styled_int(rng)
+        iprobes.append((py_render_int(*p), canon(p[0])))
+    iprobes += [('   12', canon(12)), (' 1 2 ', canon(12)), ('- 7', canon(-7)), ('     ', canon(None)), ('', canon(None)), ('*****', canon(None))]
+
+    # Fortran-written INCON files: fields of width 20 (reals), 5 (integers), 15 (porosity)
+    tmp = tempfile.mkdtemp(prefix='c16-incon-')
+    files = []
+    if t2incon is not None:
+        for k in range(n_files):
+            lines, want = ['INCON'], []
+            for b in range(rng.randint(1, 4)):
+                vals, texts = [], []
+                while len(texts) < rng.randint(1, 4):
+                    p = styled_real(rng)
+                    t = field(py_render_real(*p).rstrip(), 20)
+                    if t is None: continue
+                    texts.append(t); vals.append(canon(float(('-' if p[0] else '') + '0.' + p[1] + 'e' + str(p[2]))))
+                nseq, nadd = rng.randint(0, 99), rng.randint(1, 9999)
+                por = rng.choice(['0.10000000E+00', '0.25000000D+00', ' .3500000e 00', '1.50000000-001'])
+                porv = {'0.10000000E+00': 0.1, '0.25000000D+00': 0.25, ' .3500000e 00': 0.35, '1.50000000-001': 0.15}[por]
+                lines.append('  a%2d' % (b + 1) + rng.choice(['%5d', '%-5d', '%4d ']) % nseq + '%5d' % nadd + por.rjust(15))
+                lines.append(''.join(texts))
+                want.append((canon(nseq), canon(nadd), canon(porv), vals))
+            fn = os.path.join(tmp, 'f%d.incon' % k)
+            with open(fn, 'w') as f: f.write('\n'.join(lines) + '\n\n')
+            files.append((fn, want, lines))
+
+    history = []
+    mine = []           # Fortran dictionaries built by this caller, with the step at which they were built
+    counts = {'reader-calls': 0, 'incon-reads': 0, 'steps': 0}
+
+    def fail(key, inp, got, req):
+        inp = dict(inp); inp['earlier_steps_in_process'] = history[-12:]
+        ctx.failure('reader-dictionaries', key, inp, repr(got), req)
+
+    def check_dict(name, d):
+        for typ, probes in (('f', fprobes), ('e', fprobes), ('g', fprobes), ('d', iprobes)):
+            try: rd = d[typ]
+            except Exception as e:
+                fail('fortran_read_function:changed-by-other-dictionaries', {'dictionary': name, 'type': typ}, ('raise', type(e).__name__), 'a reader for %r' % typ)
+                continue
+            for text, exp in probes:
+                counts['reader-calls'] += 1
+                try: got = canon(rd(text))
+                except Exception as e: got = ('raise', type(e).__name__)
+                ctx.count(('dict', name, typ, text, len(history)), nontrivial=bool(text.strip()))
+                if got != exp:
+                    fail('fortran_read_function:changed-by-other-dictionaries', {'text': text, 'dictionary': name, 'type': typ}, got,
+                         "Fortran's value %s, as before the other dictionaries were built" % (shown(exp),))
+                    return
+
+    def check_module(): check_dict('fortran_read_function', fff.fortran_read_function)
+    def check_mine():
+        for at, d in mine: check_dict('read_function_dict(fortran_read_float, fortran_read_int) built at step %d' % at, d)
+    def check_incon():
+        if not files: return
+        fn, want, lines = rng.choice(files)
+        for label, kw in (('t2incon(file)', {}), ('t2incon(file, read_function=fortran_read_function)', {'read_function': fff.fortran_read_function})):
+            counts['incon-reads'] += 1
+            try:
+                inc = t2incon(fn, **kw)
+                got = [(canon(b.nseq), canon(b.nadd), canon(b.porosity), [canon(v) for v in b.variable]) for b in inc]
+            except Exception as e: got = ('raise', type(e).__name__, str(e)[:80])
+            ctx.count(('incon', fn, label, len(history)))
+            if got != want:
+                fail('fortran_read_function:changed-by-other-dictionaries', {'call': label, 'file_lines': lines}, got, 'the values Fortran wrote: %r' % (want,))
+                return
+
+    def d_default(): fff.read_function_dict()
+    def d_strict(): fff.read_function_dict(float, int)
+    def d_custom(): fff.read_function_dict(floatfn=lambda s: 'X', intfn=lambda s: 'Y')
+    def d_partial(): fff.read_function_dict(intfn=fff.default_read_int)
+    def d_str(): fff.read_function_dict(strfn=lambda s: s.upper(), spacefn=lambda s: '')
+    def d_build_mine(): mine.append((len(history), fff.read_function_dict(fff.fortran_read_float, fff.fortran_read_int)))
+    def d_edit_own():
+        d = fff.read_function_dict()
+        d['e'] = d['f'] = d['g'] = lambda s: 'mine'; d['d'] = lambda s: -1; d['q'] = str
+    def d_empty_own():
+        d = fff.read_function_dict(float, int); d.clear()
+    def d_use_default():
+        for typ in 'fegd':
+            for t in (' 1.5D+03', '1.5', ' 12', '  ', '***'):
+                try: fff.default_read_function[typ](t)
+                except Exception: pass
+    def d_strict_incon():
+        if files:
+            try: t2incon(rng.choice(files)[0], read_function=fff.default_read_function)
+            except Exception: pass
+    def d_custom_incon():
+        if files:
+            try: t2incon(rng.choice(files)[0], read_function=fff.read_function_dict(lambda s: None, lambda s: None))
+            except Exception: pass
+    def d_readers():
+        for t in (' 1.5D+03', '  ', '***', '1 2'):
+            fff.fortran_float(t); fff.fortran_int(t, 'B'); fff.fortran_read_float(t); fff.fortran_read_int(t)
+    disturb = [d_default, d_strict, d_custom, d_partial, d_str, d_build_mine, d_edit_own, d_empty_own, d_use_default, d_strict_incon, d_custom_incon, d_readers]
+    checks = [check_module, check_mine, check_incon]
+    try:
+        for f in checks: f()                      # before anything else was built
+        for r in range(rounds):
+            acts = disturb + checks + [rng.choice(checks)]
+            rng.shuffle(acts)
+            for f in acts + checks:
+                if f in checks: f()
+                else:
+                    counts['steps'] += 1
+                    try: f()
+                    except Exception as e: history.append('%s raised %s' % (f.__name__[2:], type(e).__name__))
+                    else: history.append({'default': 'read_function_dict()', 'strict': 'read_function_dict(float, int)', 'custom': 'read_function_dict(floatfn=<f>, intfn=<g>)',
+                                          'partial': 'read_function_dict(intfn=default_read_int)', 'str': 'read_function_dict(strfn=<f>, spacefn=<g>)',
+                                          'build_mine': 'read_function_dict(fortran_read_float, fortran_read_int)', 'edit_own': 'd = read_function_dict(); d[...] = <own readers>',
+                                          'empty_own': 'd = read_function_dict(float, int); d.clear()', 'use_default': 'default_read_function[typ](text)',
+                                          'strict_incon': 't2incon(file, read_function=default_read_function)', 'custom_incon': 't2incon(file, read_function=read_function_dict(<f>, <g>))',
+                                          'readers': 'fortran_float/int/read_float/read_int(text)'}[f.__name__[2:]])
+                if len(ctx.new_failures) >= 25: break
+    finally:
+        shutil.rmtree(tmp, ignore_errors=True)
+    ctx.oracle_cases('reader-dictionaries', counts['reader-calls'] + counts['incon-reads'], steps_between_checks=counts['steps'],
+                     incon_reads=counts['incon-reads'], probes=len(fprobes) + len(iprobes), incon_files=len(files))
+
 
 def run(ctx):
     ctx.rule = ('strings: exhaustive over the 17-character alphabet %r up to length %d, random strings to width 20 '
@@ -397,6 +552,7 @@ def run(ctx):
         correspond(ctx, exe, strings)
     oracle(ctx, 200000 if ctx.thorough else 30000, 20000 if ctx.thorough else 5000, strings)
     styles(ctx, exe, 200000 if ctx.thorough else 20000, 40000 if ctx.thorough else 5000)
+    dictionaries(ctx, 12 if ctx.thorough else 3, 120 if ctx.thorough else 40, 24 if ctx.thorough else 6)   # last: it builds and edits other dictionaries
 
     def deep(broken):
         rng = random.Random(ctx.seed + 77)
@@ -409,8 +565,12 @@ def replay(ctx, data):
     import fixed_format_file as fff
     inp = data.get('input') or {}
     text = inp.get('text')
-    if text is None: return True
     key = data.get('finding_key', '')
+    if key.startswith('fortran_read_function:'):
+        dictionaries(ctx, 2, 20, 3)
+        for r in ctx.new_failures[:3]: print('replay: reader-dictionaries: %s -> %s ; required: %s' % (r['input'], r['observed'], r['required']))
+        return bool(ctx.new_failures)
+    if text is None: return True
     req = data.get('required', '')
     f = fff.fortran_int if key.startswith('fortran_int') else fff.fortran_float
     got = impl_value(f, text, 'BLANK' if ('blank' in key or 'raises' in key or 'compat' in key or 'bad' in key) else 0)
